@@ -6,6 +6,7 @@ the real interpreter: straight, after json_to_state(state_to_json(s)) at k, and 
 canonicalised (fresh identifiers renamed by order of first appearance) and TLC judges the three
 continuations equal (Continuation.tla); state_to_json raising is a violation as well.
 """
+from harness import REPO
 import copy
 import json
 import multiprocessing as mp
@@ -256,11 +257,11 @@ def repo_tests_under_transformation(ctx):
     for mode in ("", "json", "age"):
         out = os.path.join(ctx.sub("repotests"), "junit_%s.xml" % (mode or "plain"))
         env = dict(os.environ)
-        env["PYTHONPATH"] = "/repo:/verif"
+        env["PYTHONPATH"] = REPO + ":/verif"
         env["VERIF_C11_MODE"] = mode
         env.pop("VERIF_TRACE_OUT", None)
         procs[mode] = (subprocess.Popen([sys.executable, "-m", "pytest", "-q", "--no-header", "-p", "no:cacheprovider", "-p", "harness.pytest_plugin",
-                                         "--timeout=600", "--junitxml=" + out] + files, cwd="/repo", env=env,
+                                         "--timeout=600", "--junitxml=" + out] + files, cwd=REPO, env=env,
                                         stdout=subprocess.DEVNULL, stderr=subprocess.DEVNULL), out)
     for mode, (p, out) in procs.items():
         p.wait()
